@@ -308,8 +308,10 @@ class Normalizer:
             out.append(st)
         return out
 
-    def flat(self, fi: FuncInfo, depth: int = 2) -> FlatFunc:
-        key = (fi.qualname, depth)
+    def flat(self, fi: FuncInfo, depth: int = 2, keep: tuple = ()) -> FlatFunc:
+        """``keep``: qualnames of helpers that must stay calls (a rule that
+        judges the call site itself)."""
+        key = (fi.qualname, depth, tuple(sorted(keep)))
         got = self._flat.get(key)
         if got is not None:
             return got
@@ -318,7 +320,7 @@ class Normalizer:
             saved = getattr(self, "_caller_names", set())
             self._caller_names = {n.id for n in ast.walk(fi.node) if isinstance(n, ast.Name)} | set(fi.params)
             try:
-                node.body = self._inline_block(fi, list(node.body), depth, {fi.qualname})
+                node.body = self._inline_block(fi, list(node.body), depth, {fi.qualname} | set(keep))
             finally:
                 self._caller_names = saved
         parents = {}
@@ -331,7 +333,7 @@ class Normalizer:
         mi.classes = fi.module.classes
         mi.assigns = fi.module.assigns
         mi.parents = parents
-        ff = FlatFunc(fi.qualname + "#flat", fi.name, node, mi, fi.cls, fi.parent, list(fi.decorators))
+        ff = FlatFunc(fi.qualname + ("#flat" if depth == 2 else f"#flat{depth}") + ("k" if keep else ""), fi.name, node, mi, fi.cls, fi.parent, list(fi.decorators))
         self._flat[key] = ff
         return ff
 
